@@ -486,3 +486,77 @@ void vf_harness(void) { String_lastIndexOf(); VF_CANARY(); }
     functions=['String::lastIndexOf(const char*)'], trusted=['String::indexOf(s, i0) = strstr: first occurrence at or after i0'],
 )
 UNITS += [last_index]
+
+# assign(b, n) on a default-constructed String (what String::f does with its stack buffer): contract in the form a caller can use
+# (the new heap block, if any, is named by is_fresh in the postcondition).  Enforced on the real body here, used by unit String_f.
+ASSIGN_EMPTY_CONTRACT = r'''
+void String_assign(String* self, const char* b, int n)
+__CPROVER_requires(__CPROVER_is_fresh(self, sizeof(String)) && self->_size == 0 && self->_len == 0 && self->_space[0] == 0)
+__CPROVER_requires(0 <= n && n <= NMAX && __CPROVER_is_fresh(b, n > 0 ? n : 1))
+__CPROVER_requires(0 <= g_k && g_k < n)
+__CPROVER_ensures(self->_len == n)
+__CPROVER_ensures(n < ASL_STR_SPACE ? self->_size == 0 : (self->_size > n && __CPROVER_is_fresh(self->_str, self->_size)))
+__CPROVER_ensures(STRP(self)[n] == 0 && STRP(self)[g_k] == b[g_k])
+__CPROVER_assigns(*self)
+'''
+assign_empty = Unit(
+    'String_assign_from_empty', 'C03',
+    cuts=helper_cuts() + [Cut('String_assign', S, r'^void String::assign\(const char\* b, int n\)\s*$', **SM, post=DEFARG_RULES + [ANCHOR_B, alias_block_rule])],
+    text=PRE + HELPERS + '#define ALIAS 0\n' + ALIAS_DEFS + ASSIGN_EMPTY_CONTRACT + r'''
+@@String_assign@@
+void vf_harness(void) { String* s; const char* b; int n; String_assign(s, b, n); VF_CANARY(); }
+''',
+    entry='String_assign', variants={'': [NMAX]},
+    desc='String::assign(b,n) on an empty String: length, NUL, content = b, inline below 16 bytes and a fresh heap block of capacity > n otherwise (caller-side form of the contract, used by String_f)',
+    functions=['String::assign', 'String::resize'],
+    trusted=['CBMC malloc/memcpy models'],
+)
+UNITS += [assign_empty]
+
+# ---------------------------------------------------------------------------------------------
+# String::f(fmt, ...): the printf-style retry loop (first attempt in a 256-byte stack buffer, then a heap buffer sized from vsnprintf's answer).
+# vsnprintf is modelled by its C99 contract over a ghost output: the formatted text has g_L bytes (any g_L), byte g_k of it is g_ch;
+# given (p, space) it stores min(g_L, space-1) bytes and a NUL and returns g_L.  The stub asserts that p really has `space` writable bytes.
+F_RULES = [(r'va_list arg;', '', 1), (r'va_start\(arg, fmt\);', '', None), (r'va_end\(arg\);', '', None),
+           (r'\bvsnprintf\(([^,]+), ([^,]+), fmt, arg\)', r'VF_VSNPRINTF(\1, \2)', '+'),
+           (r'\bString s;', 'String s; s._size = 0; s._len = 0; *s._space = 0;   /* String() */', 1),
+           (r'\bs\.resize\(([^;]*), false\);', r'String_resize(&s, \1, false, true);', None),
+           (r'\bs\.str\(\)', 'String_str(&s)', None), (r'\bs\.assign\(', 'String_assign(&s, ', None),
+           (r'return s;', '{ g_res = s; return; }', 1)]
+string_f = Unit(
+    'String_f', 'C03',
+    cuts=helper_cuts() + [Cut('String_f', S, r'^String String::f\(ASL_PRINTF_W1 const char\* fmt, \.\.\.\)\s*$', rules=F_RULES)],
+    text=PRE + HELPERS + r'''
+#define ALIAS 0
+''' + ALIAS_DEFS + r'''
+int g_L; char g_ch; int g_calls, g_complete; String g_res;
+static int VF_VSNPRINTF(char* p, int space) {
+  __CPROVER_assert(space > 0 && __CPROVER_w_ok(p, space), "vsnprintf is told no more room than the buffer it is given has");
+  int w = g_L < space ? g_L : space - 1;
+  if (g_k < w) p[g_k] = g_ch;
+  p[w] = 0;
+  g_calls++; g_complete = (g_L < space);
+  return g_L;
+}
+/* contract of String::assign(b, n) on an empty String, enforced on the real body by unit String_assign_from_empty in the same run */''' + ASSIGN_EMPTY_CONTRACT + r''';
+void String_f(const char* fmt)
+__CPROVER_requires(1 <= g_L && g_L <= NMAX && 0 <= g_k && g_k < g_L && g_ch != 0 && g_calls == 0)
+/* the result is the formatted text: its length is what vsnprintf reported, the NUL sits at that offset, every byte before it is a byte of the output (never a NUL) */
+__CPROVER_ensures(g_res._len == g_L && STR(g_res)[g_L] == 0 && STR(g_res)[g_k] == g_ch)
+__CPROVER_ensures((g_res._size == 0 && g_res._len < ASL_STR_SPACE) || g_res._size > g_res._len)
+__CPROVER_ensures(g_complete)
+__CPROVER_assigns(g_res, g_calls, g_complete)
+@@String_f@@
+void vf_harness(void) { const char* fmt; int L; g_L = L; /* (visible in traces) */ String_f(fmt); VF_CANARY(); }
+''',
+    replay=replay.from_trace('C03/driver.cpp', ['g_L'], lambda v: ['fmt', v['g_L']]),
+    entry='String_f', replace=['String_assign'], unwind=3,   # C99 vsnprintf: at most one retry; the unwinding assertion proves it
+    variants={'': [NMAX]},
+    desc='String::f retry loop for EVERY output length 1..100000 (crossing the 254/255/256-byte stack-buffer boundary): vsnprintf is never told more room than the buffer has, '
+         'the result has length = the formatted length with its NUL there and no NUL before it',
+    functions=['String::f', 'String::resize'],
+    trusted=['vsnprintf modelled by its C99 contract (returns the untruncated length; stores min(L, space-1) bytes + NUL); the pre-C99 "-1 on truncation" behaviour is not modelled',
+             'String::assign by its contract (unit String_assign_from_empty)'],
+    planted=[('String_f', r'n >= space\) && \+\+i', 'n > space) && ++i')],
+)
+UNITS += [string_f]
